@@ -56,7 +56,7 @@ def mutations(plan, rng):
                     out.append(("inherent_item_sets_differ", (bi, name), mut(drop_item=name)))
                 out.append(("inherent_item_sets_differ", bi, mut(add_item="const EXTRA: u8 = 1;")))
                 for k, name, d in plan.items:
-                    if k in ("const", "fn", "method", "ufn", "pfn", "ltfn"):
+                    if k in ("const", "fn", "method", "ufn", "pfn", "ltfn", "elfn"):
                         out.append(("inherent_visibility_differs", (bi, name), mut(vis_flip=name)))
     return out
 
@@ -159,6 +159,10 @@ def run(tier, seed, replay=None):
                 names = [n_ for k_, n_, _ in p.items if k_ in ("fn", "const")]
                 if names and not any(k_ == "type" for k_, _, _ in p.items):
                     p.items.append(("type", rng.choice(names), False))
+        if rng.random() < 0.4:
+            # a method whose late-bound lifetime is named in the trait / the first block and elided elsewhere (seeded change C14f:
+            # an arity check on fn generics would reject it)
+            p.items.append(("elfn", "lbl", False))
         bases.append(p)
     cases = []   # (defect or None, site, plan)
     for b in bases:
